@@ -582,7 +582,11 @@ class C09:
                 # must not influence later operations
                 fresh_id[0] += 1
                 bad = rng.choice(["meta/unsafe.torrent", "meta/garbage.torrent", "meta/nolength.torrent",
-                                  "meta/nolength.torrent", "meta/noroot.torrent"])
+                                  "meta/nolength.torrent", "meta/noroot.torrent", "metabad", "metabad"])
+                if bad == "metabad":
+                    hist.append({"op": "rebuild", "meta": bad, "search": ".", "dest": f"dest{fresh_id[0]}",
+                                 "via": rng.choice(["lib", "cli"]), "prefix": rng.choice([None, ["-q"], ["-v"]])})
+                    continue
                 hist.append({"op": "recheck", "meta": bad, "content": "p", "via": rng.choice(["lib", "cli"])}
                             if "no" in bad and rng.random() < 0.6 else rng.choice([
                     {"op": "rebuild", "meta": bad, "search": ".", "dest": f"dest{fresh_id[0]}", "via": rng.choice(["lib", "cli"])},
@@ -634,6 +638,13 @@ class C09:
                 fd.write(unsafe)
             with open(os.path.join(sb, "meta", "garbage.torrent"), "wb") as fd:
                 fd.write(b"this is not bencoding at all")
+            # a FOLDER of metafiles (rebuild -m <folder>): one refused metafile next to a good one
+            os.makedirs(os.path.join(sb, "metabad"))
+            with open(os.path.join(sb, "metabad", "a-unsafe.torrent"), "wb") as fd:
+                fd.write(unsafe)
+            with open(os.path.join(sb, "metabad", "z-good.torrent"), "wb") as fd:
+                fd.write(rt.build("p", files=[(tuple(f[0].split("/")), content(f[2], f[1])) for f in sorted(case["files"])],
+                                  pl=16384, version=1))
             # v2 / hybrid metafiles of a nested tree called like the payload directory whose deepest leaf lacks its
             # length / its root: the operation fails half-way through a directory walk
             from .recheck_family import _malform
@@ -662,7 +673,7 @@ class C09:
                     return {"inconclusive": "executor error", "traceback": str(ra.get("harness_error") or rb_.get("harness_error"))[-1500:]}
                 steps += 1
                 counters[op["op"] + "_steps"] = counters.get(op["op"] + "_steps", 0) + 1
-                if op.get("meta", "").endswith(("unsafe.torrent", "garbage.torrent", "nolength.torrent", "noroot.torrent")):
+                if op.get("meta", "").endswith(("unsafe.torrent", "garbage.torrent", "nolength.torrent", "noroot.torrent", "metabad")):
                     counters["failing_operation_steps"] = counters.get("failing_operation_steps", 0) + 1
                 if op["op"] == "create" and op["route"] == "config":
                     counters["config_file_create_steps"] = counters.get("config_file_create_steps", 0) + 1
